@@ -1,0 +1,11 @@
+//go:build verif
+
+package bridgeservice
+
+import "net/http"
+
+// Verification hook (build tag verif): access to the HTTP handler that Start serves, so that requests can be sent
+// to the real routes with net/http/httptest (no listener). No logic lives here.
+
+// VerifHandler returns the gin engine with the routes registered by New.
+func (b *BridgeService) VerifHandler() http.Handler { return b.router }
